@@ -58,6 +58,7 @@ type slVar struct {
 	param    int // index among the parameters, -1 for locals
 	reassign bool
 	declPos  token.Pos
+	nonneg   bool // an int variable that cannot be negative (a loop index)
 }
 
 type slParam struct {
@@ -343,10 +344,15 @@ func (f *slFn) lengthLike(e ast.Expr) bool {
 		if x.Op == token.ADD {
 			return f.lengthLike(x.X) && f.lengthLike(x.Y)
 		}
+		if x.Op == token.QUO || x.Op == token.REM {
+			if c, ok := f.constVal(x.Y); ok && c != "0" {
+				return f.lengthLike(x.X)
+			}
+		}
 	case *ast.Ident:
 		if v := f.lookup(x); v != nil && v.kind == kNat {
 			_, uns := bitsOf(f.g.info.TypeOf(x))
-			return uns
+			return uns || v.nonneg
 		}
 	}
 	return false
@@ -386,6 +392,11 @@ func (f *slFn) natExpr(e ast.Expr) string {
 			c, ok := f.constVal(x.Index)
 			if fld := limbField(c); ok && fld != "" {
 				return slAtom(l) + "." + fld
+			}
+			if !ok && f.lengthLike(x.Index) {
+				t := f.fresh()
+				f.emit("let %s ← Prim.limbAt %s %s", t, slAtom(l), slAtom(f.natExpr(x.Index)))
+				return t
 			}
 			f.fail("limb index")
 		}
@@ -466,6 +477,12 @@ func (f *slFn) natExpr(e ast.Expr) string {
 		if !uns {
 			if x.Op == token.ADD && f.lengthLike(e) {
 				return fmt.Sprintf("(%s + %s)", a, b)
+			}
+			if c, ok := f.constVal(x.Y); ok && c != "0" && (x.Op == token.QUO || x.Op == token.REM) && f.lengthLike(x.X) {
+				if x.Op == token.QUO {
+					return fmt.Sprintf("(%s / %s)", a, b)
+				}
+				return fmt.Sprintf("(%s %% %s)", a, b)
 			}
 			if x.Op == token.SUB && f.inIndex > 0 && f.lengthLike(x.X) && f.lengthLike(x.Y) {
 				t := f.fresh()
@@ -1751,10 +1768,26 @@ func (f *slFn) rangeStmt(x *ast.RangeStmt) {
 		return true
 	})
 	switch {
+	case k == kNat && x.Value == nil && x.Key != nil && !isBlank(x.Key):
+		// for i := range N
+		n, isC := f.constVal(x.X)
+		if !isC {
+			f.fail("range over a non-constant integer")
+		}
+		fnName, vs := f.loopBody(x.Body.List, x.Pos(), func() *slVar {
+			v := f.declare(x.Key.(*ast.Ident), kNat, -1)
+			v.nonneg = true
+			return v
+		}, false)
+		f.emit("let %s ← (List.range %s).foldlM %s %s", patOf(vs), n, fnName, tupleOf(vs))
 	case k == kBytes && x.Value == nil && x.Key != nil && !isBlank(x.Key):
 		// for i := range s: the length is read once, before the first iteration
 		b, _ := f.bytesExpr(x.X)
-		fnName, vs := f.loopBody(x.Body.List, x.Pos(), func() *slVar { return f.declare(x.Key.(*ast.Ident), kNat, -1) }, false)
+		fnName, vs := f.loopBody(x.Body.List, x.Pos(), func() *slVar {
+			v := f.declare(x.Key.(*ast.Ident), kNat, -1)
+			v.nonneg = true
+			return v
+		}, false)
 		f.emit("let %s ← (List.range (%s).length).foldlM %s %s", patOf(vs), b, fnName, tupleOf(vs))
 	case k == kBytesList && x.Value != nil && (x.Key == nil || isBlank(x.Key)):
 		lv := f.baseVar(x.X)
@@ -2065,7 +2098,7 @@ func (g *slGen) fn(s *slSum, fd *ast.FuncDecl) {
 			if !ok || k == kHash || k == kBytesList {
 				panic("result type")
 			}
-			if _, isArr := t.Underlying().(*types.Array); isArr {
+			if _, isArr := t.Underlying().(*types.Array); isArr && k != kBytes {
 				panic("array result")
 			}
 			_, isPtr := t.Underlying().(*types.Pointer)
@@ -2344,7 +2377,7 @@ func genBytesMode(outDir string) {
 		g.translate(r)
 	}
 	nGroup := len(g.order)
-	codecRoots := []string{"Scalar.Encode", "Scalar.Decode", "Scalar.Hex", "Scalar.DecodeHex", "Scalar.MarshalBinary", "Scalar.UnmarshalBinary"}
+	codecRoots := []string{"Scalar.Encode", "Scalar.Decode", "Scalar.Hex", "Scalar.DecodeHex", "Scalar.MarshalBinary", "Scalar.UnmarshalBinary", "Scalar.Bits"}
 	for _, r := range codecRoots {
 		g.translate(r)
 	}
